@@ -8,5 +8,9 @@ Definition vert_owner_f := vert_owner float.
 Definition sub_parts_f := sub_parts float 0%float 1%float flerp.
 Extraction "../build/ml/c19_model.ml" get_partition_f reindex_f tiles_ok_float eps_float key_tiles_exact
   set_tolerance simplify_tolerances subdivide_tris_f subdivide_numvert_f vert_owner_f sub_parts_f.
+From MV Require Tri.SubdivideQuadDefs.
+Definition subdivide_tris_q_f := SubdivideQuadDefs.subdivide_tris_q float 0%float 1%float flerp.
+Definition subdivide_numvert_q_f := SubdivideQuadDefs.subdivide_numvert_q float 0%float 1%float flerp.
+Extraction "../build/ml/c19_subq.ml" subdivide_tris_q_f subdivide_numvert_q_f.
 From MV Require Tri.SimplifyDefs.
 Extraction "../build/ml/c19_simplify.ml" SimplifyDefs.collapse_edge2 SimplifyDefs.swap_edge SimplifyDefs.num_live SimplifyDefs.slots SimplifyDefs.mkState.
